@@ -118,6 +118,19 @@ def check(case, ctx):
         if ctx.returned(o4, route=name) and ctx.returned(o5, route=name):
             ctx.le("R(p q) = R(p) R(q)", np.abs(np.asarray(o4.value, float) - np.asarray(o5.value, float) @ R).max(),
                    4 * TOL_R, route=name)
+    # quaternions read back from a log with k decimals: every row almost, none exactly, of unit length (a batch of such rows has no clearly
+    # non-unit row in it); each route still answers with the proper rotation of the normalised quaternion
+    k_dec = 3 + int(abs(float(v[1])) * 1e3) % 6
+    qr_, pr_ = np.round(q, k_dec), np.round(p, k_dec)
+    if np.linalg.norm(qr_) > 0.5 and np.linalg.norm(pr_) > 0.5:
+        Rr_ = rq.refR(qr_ / np.linalg.norm(qr_))
+        for name, fn in _mat_routes(pr_, qr_).items():
+            out = call(fn, qr_)
+            if ctx.returned(out, clause="no-exception[rounded quaternion]", route=name):
+                R = as_real_array(ctx, out.value, (3, 3), route=name, what="matrix")
+                if R is not None:
+                    ctx.le("a quaternion rounded to k decimals (every row of the batch so) gives the proper rotation of its normalised self",
+                           max(np.abs(R - Rr_).max(), rq.so3_defect(R)), TOL_R + TOL_SO3, {"decimals": k_dec, "q": qr_, "R": R, "ref": Rr_}, route=name)
     # the free conjugate helper, one quaternion and stacks of 1, 2 and 3 rows: the conjugate gives the transpose
     for lab, arr in (("(4,)", q), ("(1, 4)", q[None]), ("(2, 4)", np.array([q, p])), ("(3, 4)", np.array([q, p, -q]))):
         out = call(lambda: np.asarray(o.q_conj(arr.copy()), float))
